@@ -33,6 +33,8 @@ mod content_collector;
 mod handshake_state;
 mod heartbeat_timers;
 mod io_loop_handle;
+#[cfg(amiquip_verif)]
+pub(crate) mod verif_probes;
 
 pub(crate) use channel_handle::{Channel0Handle, ChannelHandle};
 use channel_slots::ChannelSlots;
@@ -488,6 +490,8 @@ impl IoLoop {
                 Err(TryRecvError::Disconnected) => return EventLoopClientDroppedSnafu.fail(),
             };
             ch0_slot.blocked_tx = Some(tx);
+            #[cfg(amiquip_verif)]
+            crate::verif::emit("setblocked", &[]);
         }
     }
 
@@ -547,6 +551,8 @@ impl IoLoop {
         let mut events = Events::with_capacity(128);
         let mut listening_to_channels = true;
         loop {
+            #[cfg(amiquip_verif)]
+            crate::verif::emit("poll_begin", &[]);
             let start_poll = Instant::now();
             self.poll
                 .poll(&mut events, self.connection_timeout)
@@ -562,11 +568,18 @@ impl IoLoop {
 
             let had_data_to_write = self.inner.has_data_to_write();
 
+            #[cfg(amiquip_verif)]
+            crate::verif::emit_batch(&events);
+
             for event in events.iter() {
+                #[cfg(amiquip_verif)]
+                crate::verif::emit_event(&event);
                 handle_event(self, stream, state, event)?;
             }
 
             if is_done(self, state) {
+                #[cfg(amiquip_verif)]
+                self.inner.verif_loop_end(listening_to_channels, true);
                 return Ok(());
             }
 
@@ -612,6 +625,8 @@ impl IoLoop {
                     .reregister(stream, STREAM, Ready::readable(), PollOpt::edge())
                     .context(RegisterWithPollHandleSnafu)?;
             }
+            #[cfg(amiquip_verif)]
+            self.inner.verif_loop_end(listening_to_channels, false);
         }
     }
 }
@@ -637,6 +652,21 @@ struct Inner {
 }
 
 impl Inner {
+    #[cfg(amiquip_verif)]
+    fn verif_loop_end(&self, listening: bool, done: bool) {
+        crate::verif::emit(
+            "loop_end",
+            &[
+                ("outlen", self.outbuf.len() as i64),
+                ("sealed", self.outbuf.is_sealed() as i64),
+                ("listening", listening as i64),
+                ("registered", self.channels_are_registered as i64),
+                ("nslots", self.chan_slots.iter().count() as i64),
+                ("done", done as i64),
+            ],
+        );
+    }
+
     fn new(heartbeats: HeartbeatTimers, mio_channel_bound: usize) -> Self {
         Inner {
             outbuf: SealableOutputBuffer::new(OutputBuffer::with_protocol_header()),
@@ -656,6 +686,8 @@ impl Inner {
     fn seal_writes(&mut self) {
         trace!("sealing writes - no more data should be enqueued");
         self.outbuf.seal();
+        #[cfg(amiquip_verif)]
+        crate::verif::emit("seal", &[]);
     }
 
     #[inline]
@@ -683,6 +715,8 @@ impl Inner {
                 .context(DeregisterWithPollHandleSnafu)?;
         }
         self.channels_are_registered = false;
+        #[cfg(amiquip_verif)]
+        crate::verif::emit("throttle", &[("on", 1)]);
         Ok(())
     }
 
@@ -697,6 +731,8 @@ impl Inner {
             .context(RegisterWithPollHandleSnafu)?;
         }
         self.channels_are_registered = true;
+        #[cfg(amiquip_verif)]
+        crate::verif::emit("throttle", &[("on", 0)]);
         Ok(())
     }
 
@@ -705,18 +741,29 @@ impl Inner {
             match kind {
                 HeartbeatKind::Rx => match self.heartbeats.fire_rx() {
                     HeartbeatState::StillRunning => {
+                        #[cfg(amiquip_verif)]
+                        crate::verif::emit("hb", &[("rx", 1), ("expired", 0)]);
                         trace!("rx heartbeat timer fired, but have received data since last");
                     }
                     HeartbeatState::Expired => {
+                        #[cfg(amiquip_verif)]
+                        crate::verif::emit("hb", &[("rx", 1), ("expired", 1)]);
                         error!("missed heartbeats from server - closing connection");
                         return MissedServerHeartbeatsSnafu.fail();
                     }
                 },
                 HeartbeatKind::Tx => match self.heartbeats.fire_tx() {
                     HeartbeatState::StillRunning => {
+                        #[cfg(amiquip_verif)]
+                        crate::verif::emit("hb", &[("rx", 0), ("expired", 0)]);
                         trace!("tx heartbeat timer fired, but have sent data since last");
                     }
                     HeartbeatState::Expired => {
+                        #[cfg(amiquip_verif)]
+                        crate::verif::emit(
+                            "hb",
+                            &[("rx", 0), ("expired", 1), ("outlen", self.outbuf.len() as i64)],
+                        );
                         // if we already have data queued up to send, don't bother also
                         // enqueuing up a heartbeat frame
                         if self.outbuf.is_empty() {
@@ -766,6 +813,13 @@ impl Inner {
     }
 
     fn process_channel_message(&mut self, channel_id: u16, message: IoLoopMessage) -> Result<()> {
+        #[cfg(amiquip_verif)]
+        let verif_msg = match &message {
+            IoLoopMessage::Send(buf) => (0, buf.len() as i64),
+            IoLoopMessage::ConnectionClose(buf) => (1, buf.len() as i64),
+            IoLoopMessage::SetReturnHandler(_) => (2, 0),
+            IoLoopMessage::SetPubConfirmHandler(_) => (3, 0),
+        };
         match message {
             IoLoopMessage::ConnectionClose(buf) => {
                 self.outbuf.append(buf);
@@ -789,6 +843,16 @@ impl Inner {
                 slot.pub_confirm_handler = handler;
             }
         }
+        #[cfg(amiquip_verif)]
+        crate::verif::emit(
+            "chanmsg",
+            &[
+                ("ch", channel_id as i64),
+                ("kind", verif_msg.0),
+                ("len", verif_msg.1),
+                ("outlen", self.outbuf.len() as i64),
+            ],
+        );
         Ok(())
     }
 
@@ -822,6 +886,17 @@ impl Inner {
                 }
                 Ok((slot, handle))
             });
+            #[cfg(amiquip_verif)]
+            crate::verif::emit(
+                "alloc",
+                &[
+                    ("req", new_channel_id.map(i64::from).unwrap_or(-1)),
+                    (
+                        "id",
+                        result.as_ref().map(|h| i64::from(h.channel_id())).unwrap_or(-1),
+                    ),
+                ],
+            );
             // safe to unwrap the get() here because we wouldn't be in this method
             // at all if we didn't have a slot that just received this message.
             match ch0_slot.alloc_chan_rep_tx.send(result) {
@@ -849,6 +924,8 @@ impl Inner {
     {
         let n = frame_buffer.read_from(stream, |frame| {
             trace!("read frame {:?}", frame);
+            #[cfg(amiquip_verif)]
+            crate::verif::emit_frame(&frame);
             handler(self, frame)
         })?;
         if n > 0 {
